@@ -24,7 +24,9 @@ import PdfModel.Core.Out
                                                                  pageLoopOld (unchecked `pos + tree.count`)
   ColorSpace::from_primitive_depth (color.rs), depth 5          csLoad ; csLoadOld (DeviceN restarts the budget)
   AppearanceStreamEntry::from_primitive_depth (types.rs), 2      apLoad ; apLoadOld (no budget)
-  the /Prev loop of Backend::read_xref_table_and_trailer        prevLoop (`seen` list)
+  the /Prev loop of Backend::read_xref_table_and_trailer        prevLoop, readChain (`seen` list; `start` = start_offset:
+                                                                 numbers in the file are header-relative, the table is indexed
+                                                                 by buffer position)
 
   Objects live in a table indexed by object number (`List`); a number outside the table is a dangling
   reference. Loading never inspects anything but the table, so "finite graph" is "finite table".
@@ -351,25 +353,47 @@ def apLoadOld (g : List AObj) : Nat → Nat → Out Unit
 -- ---------------------------------------------------------------------------------------------------
 -- /Prev
 
-/-- What is found at a file position: nothing readable (`none`) or a section with its `/Prev`. -/
+/-- What is found at an *absolute* position of the buffer: nothing readable (`none`) or a section with
+    its `/Prev`. The numbers written in the file (`startxref`, `/Prev`) are relative to the `%PDF-` header,
+    which sits `start` bytes into the buffer (`Storage::start_offset`): the two coordinate systems differ
+    whenever there is junk before the header. -/
 abbrev Sections := List (Option (Option Nat))
 
-/-- the `while let Some(prev_xref_offset) = prev_trailer` loop; result: number of sections merged -/
-def prevLoop (secs : Sections) : Nat → Option Nat → List Nat → Nat → Out Nat
+def usizeMax : Nat := 18446744073709551615
+
+/-- the `while let Some(prev_xref_offset) = prev_trailer` loop: `seen` records and compares the
+    header-relative number, the section is read at `start + number` (`checked_add`); result: number of
+    sections merged -/
+def prevLoop (secs : Sections) (start : Nat) : Nat → Option Nat → List Nat → Nat → Out Nat
   | 0, _, _, _ => .oof
   | _ + 1, none, _, n => .ok n
   | fuel + 1, some p, seen, n =>
     if p ∈ seen then .err else
-    match secs[p]? with
+    if start + p > usizeMax then .err else
+    match secs[start + p]? with
     | none => .err
     | some none => .err
-    | some (some prev) => prevLoop secs fuel prev (p :: seen) (n + 1)
+    | some (some prev) => prevLoop secs start fuel prev (p :: seen) (n + 1)
 
-/-- `read_xref_table_and_trailer`: the section at `start`, then the chain -/
-def readChain (secs : Sections) (fuel : Nat) (start : Nat) : Out Nat :=
-  match secs[start]? with
+/-- `read_xref_table_and_trailer(start_offset)`: the section `startxref` names, then the chain -/
+def readChain (secs : Sections) (start : Nat) (fuel : Nat) (xrefOffset : Nat) : Out Nat :=
+  if start + xrefOffset > usizeMax then .err else
+  if start + xrefOffset ≥ secs.length then .err else
+  match secs[start + xrefOffset]? with
   | none => .err
   | some none => .err
-  | some (some prev) => prevLoop secs fuel prev [] 1
+  | some (some prev) => prevLoop secs start fuel prev [] 1
+
+/-- A loop guard that records the buffer position but compares the number from the file (the two
+    coordinate systems mixed up). Not the code: kept to show what the explicit `start` is for. -/
+def prevLoopMixed (secs : Sections) (start : Nat) : Nat → Option Nat → List Nat → Nat → Out Nat
+  | 0, _, _, _ => .oof
+  | _ + 1, none, _, n => .ok n
+  | fuel + 1, some p, seen, n =>
+    if p ∈ seen then .err else
+    match secs[start + p]? with
+    | none => .err
+    | some none => .err
+    | some (some prev) => prevLoopMixed secs start fuel prev ((start + p) :: seen) (n + 1)
 
 end TypedLoad
